@@ -39,6 +39,7 @@ type H struct {
 	idx   int
 	ncoq  map[string]int
 	quota int // Coq cases per (kind, method)
+	nscript int // container scripts run so far (fresh variable names)
 }
 
 func (h *H) eval(src string) (v interface{}, errs string) {
@@ -821,6 +822,7 @@ func main() {
 	boolKind(h)
 	stringKind(h)
 	containers(h)
+	containerScripts(h)
 
 	h.cases.Close()
 	rep.Extra["coq_cases"] = h.idx
